@@ -12,6 +12,8 @@ head = sh("git -C /repo rev-parse --short HEAD").stdout.strip()
 for sid in ids:
     d = f"/verif/seeded/{sid}"; meta = json.load(open(f"{d}/meta.json"))
     prop = meta["property"]
+    if meta.get("retired"):
+        print(f"{sid}: retired ({meta['retired'][:80]}...)"); continue
     if sh(f"git -C /repo apply --check {d}/patch.diff").returncode != 0:
         print(f"{sid}: DOES NOT APPLY to {head}"); meta["applies_to"] = None
         json.dump(meta, open(f"{d}/meta.json","w"), indent=1); continue
